@@ -22,6 +22,10 @@ from typing_extensions import TypedDict, Literal, NotRequired
 from contextlib import suppress
 from dataclasses import dataclass
 from pyanalyze.extensions import reveal_locals
+try:
+    import c10lib
+except ImportError:
+    c10lib = None
 """
 
 
@@ -189,6 +193,10 @@ class Gen:
         elif k == 9:
             self.features.add("locals")
             self.emit(ind, "reveal_locals()")
+            if r.random() < 0.5:
+                self.features.add("imported")
+                call = r.choice(["answer()", "make_pair(1)", "pick(cb)", "Box().get()"])
+                self.emit(ind, f"reveal_type(c10lib.{call})")
         elif k == 10:
             self.features.add("attr")
             v = r.choice(vars_)
